@@ -75,6 +75,20 @@ def run(case, ctx):
         return ctx.fail("full/column-names", f"got {results['full_join'].column_names()} want {names}")
     if len(results["full_join"]) != len(want_full):
         return ctx.fail("full/len", f"len={len(results['full_join'])} rows={len(want_full)}")
+    # every expectation that holds must give the many_to_many result (row set and order)
+    lu = len(set(lkeys)) == len(lkeys)
+    ru = len(set(rkeys)) == len(rkeys)
+    for ex, ok in (("one_to_one", lu and ru), ("many_to_one", ru), ("one_to_many", lu)):
+        if not ok:
+            continue
+        for kind, want in (("join", want_left), ("full_join", want_full)):
+            ctx.ev()
+            try:
+                r = getattr(lt, kind)(rt, lon, ron, expect=ex)
+            except Exception as e:  # noqa: BLE001
+                return ctx.fail(f"{kind}/{ex}/raised-although-expectation-holds", f"{type(e).__name__}: {e}")
+            if R.frozen_rows(R.cells(r)) != want:
+                return ctx.fail(f"{kind}/{ex}/rows-differ-from-reference", f"got {R.cells(r)} want {want}")
     # containment inner <= left <= full as multisets (results of the implementation itself)
     ci = Counter(map(repr, R.frozen_rows(R.cells(results["inner_join"]))))
     cl, cf = Counter(map(repr, got_left)), Counter(map(repr, got_full))
@@ -108,6 +122,28 @@ def run(case, ctx):
         return ctx.fail("full/swap-differs", f"full_join(R,L) rows (blocks swapped back) {got_sw} != full_join(L,R) rows {cf}")
     if R.snapshot_table(lt) != snap_l or R.snapshot_table(rt) != snap_r:
         return ctx.fail("outer/input-modified", "an input table changed during a join")
+    # the same joins again after an in-place edit of one right key cell: inner <= left <= full must hold for the new contents
+    spec = case["R"]["specs"][0]
+    if case["nr"] >= 1 and case["nl"] >= 1 and spec[0] in ("name", "own") and lkeys[0][0] is not None:
+        kc = [nm for nm, _ in case["R"]["cols"]].index(spec[1]) if spec[0] == "name" else spec[1]
+        newv = lkeys[0][0]
+        try:
+            rt.cols()[kc][case["nr"] - 1] = newv
+            edited = type(newv) is type(next((x for x in rkc[0] if x is not None), newv))
+        except Exception:  # noqa: BLE001
+            edited = False
+        if edited:
+            rkeys2 = [tuple(newv if (i == case["nr"] - 1 and c == 0) else k[c] for c in range(len(k))) for i, k in enumerate(rkeys)]
+            rrows2 = R.cells(rt)
+            for kind, ref in (("inner_join", ref_inner), ("join", ref_left), ("full_join", ref_full)):
+                ctx.ev()
+                try:
+                    r = getattr(lt, kind)(rt, lon, ron, expect="many_to_many")
+                except S.SerifTypeError:
+                    break
+                want = R.frozen_rows(pairs_to_rows(ref(lrows, rrows2, lkeys, rkeys2), lrows, rrows2, nl, nr))
+                if R.frozen_rows(R.cells(r)) != want:
+                    return ctx.fail(f"{kind}/stale-after-in-place-edit-of-right-key", f"after R key cell := {newv!r}: got {R.cells(r)} want {want}")
     if cls["unmatched_l"] and cls["unmatched_r"] and cls["matched"]:
         ctx.nontrivial()
 
